@@ -178,7 +178,10 @@ def check_ahb(case):
     if case["validity_check"]:
         _setup_cer_based()
         for what, arg in (("string", text), ("tree", tree.value)):
-            res = sut.call(is_valid_expression, arg, _CER.set)
+            if len(text) % 2:
+                res = sut.call(is_valid_expression, expression_or_tree=arg, content_evaluation_result_setter=_CER.set)
+            else:
+                res = sut.call(is_valid_expression, arg, _CER.set)
             if not res.ok:
                 fail("validity-raises", f"is_valid_expression({what} of {text!r}) raised {res!r}")
             value = res.value
